@@ -21,14 +21,27 @@ LONG_FAMILIES = [
 ]
 
 
+# names that a normalising comparison would confuse: zero-padded twins, letter-case twins, trailing / leading blanks
+TWIN_FAMILIES = [
+    [b'chr1', b'chr01', b'chr001', b'chr10'],
+    [b'scaffold_7', b'scaffold_007', b'scaffold_70'],
+    [b'0', b'00', b'000'],
+    [b'chrX', b'chrx', b'CHRX', b'ChrX'],
+    [b'chrM', b'chrm', b'chrMT'],
+    [b'chr1', b'chr1 ', b' chr1', b'chr1\x00'],
+    ['chré'.encode(), 'chrÉ'.encode(), b'chre'],
+]
+
+
 def chrom(rng, k=None):
     return rng.choice(CHROMS[:k] if k else CHROMS)
 
 
 def chrom_set(rng, n):
     """n chromosome names: usually independent draws from the short pool, sometimes members of one long-prefix family"""
-    if rng.random() < 0.12:
-        fam = rng.choice(LONG_FAMILIES)
+    r = rng.random()
+    if r < 0.24:
+        fam = rng.choice(LONG_FAMILIES if r < 0.12 else TWIN_FAMILIES)
         return [rng.choice(fam) for _ in range(max(1, n))] if n != 2 else rng.sample(fam, 2)
     return [chrom(rng) for _ in range(max(1, n))]
 
@@ -60,7 +73,7 @@ def rand_query(rng, regs, mode, nonempty=True):
         a, b = G.rand_query(rng, pbc[c], mode, nonempty)
     elif pbc and r < 0.93:
         c = rng.choice(CHROMS)
-        fams = [f for f in LONG_FAMILIES if any(x in f for x in pbc)]
+        fams = [f for f in LONG_FAMILIES + TWIN_FAMILIES if any(x in f for x in pbc)]
         if fams:
             c = rng.choice(rng.choice(fams))          # a sibling sharing the long prefix, stored or not
         allp = sorted(set(p for v in pbc.values() for p in v))
